@@ -232,10 +232,11 @@ def simp_bits(know, bits):
     out = []
     for b in bits:
         if isinstance(b, tuple):
-            leaf, k = b
+            leaf, k = b[0], b[1]
+            ng = 1 if len(b) == 3 else 0
             al = know.leaf_allowed(leaf) if know is not None else None
             if al is not None and len(al) <= 4096:
-                vals = set((v >> k) & 1 for v in al)
+                vals = set(((v >> k) & 1) ^ ng for v in al)
                 if len(vals) == 1:
                     out.append(vals.pop())
                     continue
@@ -253,7 +254,7 @@ def _full_opq_leaf(bits):
         return None
     k = 0
     for i, b in enumerate(bits):
-        if isinstance(b, tuple) and b[0] == leaf and b[1] == i and k == i:
+        if isinstance(b, tuple) and len(b) == 2 and b[0] == leaf and b[1] == i and k == i:
             k += 1
         elif b == 0 and k > 0:
             continue
